@@ -209,7 +209,17 @@ where
 
     fn rebuild(self, state: &mut Self::State) {
         let (name, mut f) = self;
-        // Name might've updated:
+        let mut prev_value = state.effect.take_value();
+        // the name might've updated: the class toggled so far is not this attribute's
+        // class any more, and the new one has not been added yet
+        if name != state.name {
+            if let Some((class_list, included)) = prev_value.as_mut() {
+                if *included {
+                    Rndr::remove_class(class_list, state.name);
+                    *included = false;
+                }
+            }
+        }
         state.name = name;
         state.effect = RenderEffect::new_with_value(
             move |prev| {
@@ -230,7 +240,7 @@ where
                     }
                 }
             },
-            state.effect.take_value(),
+            prev_value,
         );
     }
 
